@@ -93,23 +93,28 @@ func (dist *GParetoDistribution) LogPdf(r Scalar, x ConstScalar) error {
     }
   } else {
     // xi < 0
-    if x.GetFloat64() < dist.Mu.GetFloat64() || x.GetFloat64() > dist.Mu.GetFloat64() - dist.Sigma.GetFloat64()/dist.Xi.GetFloat64() {
+    if x.GetFloat64() < dist.Mu.GetFloat64() || x.GetFloat64() >= dist.Mu.GetFloat64() - dist.Sigma.GetFloat64()/dist.Xi.GetFloat64() {
       r.SetFloat64(math.Inf(-1))
       return nil
     }
   }
 
-  r.Sub(r, dist.Mu)
+  r.Sub(x, dist.Mu)
   r.Div(r, dist.Sigma)
 
   if dist.Xi.GetFloat64() == 0.0 {
     r.Neg(r)
   } else {
     r.Mul(r, dist.Xi)
+    if r.GetFloat64() <= -1.0 {
+      // upper end of the support reached within rounding
+      r.SetFloat64(math.Inf(-1))
+      return nil
+    }
     r.Log1p(r)
     r.Mul(r, dist.cx2) // cx2 = -1/xi - 1
-    r.Sub(r, dist.cs)  // cs  = log sigma
   }
+  r.Sub(r, dist.cs)  // cs  = log sigma
 
   return nil
 }
@@ -131,12 +136,17 @@ func (dist *GParetoDistribution) LogCdf(r Scalar, x ConstScalar) error {
     }
   } else {
     // xi < 0
-    if x.GetFloat64() < dist.Mu.GetFloat64() || x.GetFloat64() > dist.Mu.GetFloat64() - dist.Sigma.GetFloat64()/dist.Xi.GetFloat64() {
+    if x.GetFloat64() < dist.Mu.GetFloat64() {
       r.SetFloat64(math.Inf(-1))
       return nil
     }
+    // above the support: cdf = 1
+    if x.GetFloat64() >= dist.Mu.GetFloat64() - dist.Sigma.GetFloat64()/dist.Xi.GetFloat64() {
+      r.SetFloat64(0.0)
+      return nil
+    }
   }
-  r.Sub(r, dist.Mu)
+  r.Sub(x, dist.Mu)
   r.Div(r, dist.Sigma)
 
   if dist.Xi.GetFloat64() == 0.0 {
